@@ -250,6 +250,13 @@ func hammer(kind string, perG int, rng *rand.Rand) map[string]any {
 	for _, ch := range chains {
 		shared = append(shared, apply(root, ch))
 	}
+	{
+		wp := root.With("svc", "api")
+		for _, name := range []string{"alpha", "delta"} {
+			chains = append(chains, []chainItem{{attrs: []any{"svc", "api"}}, {group: name}})
+			shared = append(shared, wp.WithGroup(name))
+		}
+	}
 	type rec struct {
 		lg   *logger.Logger
 		msg  string
@@ -344,7 +351,11 @@ func main() {
 		d := &dest{log: evlog.New(), kind: kind, rng: rand.New(rand.NewSource(rng.Int63())), fast: true}
 		l := logger.New(mkHandler(kind, d, logger.LevelInfo))
 		b, gid := d.buf()
+		lens := []int{16300, 16384, 16385, 17000, 40000, 66000, 200000} // the message alone beyond the pooled-buffer limit (16 KiB)
 		for n := 850; n <= 1750; n++ {
+			lens = append(lens, n)
+		}
+		for _, n := range lens {
 			id := n
 			msg := fmt.Sprintf("rec#%d#", id) + strings.Repeat("s", n)
 			c := &captureOne{}
@@ -393,6 +404,16 @@ func main() {
 			for _, ch := range [][]chainItem{{}, {{group: "req"}}, {{group: "app"}, {group: "db"}}, {{attrs: []any{"svc", "api"}}, {group: "g"}},
 				{{attrs: []any{"blob", strings.Repeat("z", 1500)}}}} {
 				shared = append(shared, sharedLogger{apply(root, ch), ch})
+			}
+			{
+				// several sibling groups derived from one parent that carries attributes / an open group: a record through an earlier
+				// sibling must still be that sibling's line
+				wp := root.With("svc", "api")
+				gp := root.WithGroup("svc")
+				for _, name := range []string{"alpha", "beta", "r c", "delta"} {
+					shared = append(shared, sharedLogger{wp.WithGroup(name), []chainItem{{attrs: []any{"svc", "api"}}, {group: name}}})
+					shared = append(shared, sharedLogger{gp.WithGroup(name), []chainItem{{group: "svc"}, {group: name}}})
+				}
 			}
 			var fastBarrier sync.WaitGroup
 			fastBarrier.Add(*ng)
